@@ -180,6 +180,111 @@ EXTRA_OPS = {
 }
 
 
+def _listing(r):
+    """Comparable form of the result of a set operation."""
+    if r is None:
+        return None
+    if isinstance(r, tuple):          # weighted ops: (weight, container)
+        return (r[0], _listing(r[1]))
+    if hasattr(r, 'items') and not isinstance(r, dict):
+        return (type(r).__name__.replace('Py', ''), list(r.items()))
+    return (type(r).__name__.replace('Py', ''), list(r))
+
+
+# operations that take the stored container as an OPERAND (its nodes are read
+# through the C set-iteration cursors / bulk copies, not through the mapping
+# API) and build a fresh result: fn(fam, impl, c, other)
+OPERAND_OPS = {
+    'o_union': lambda f, i, c, o: _listing(f.fn('union', i)(c, o)),
+    'o_union_r': lambda f, i, c, o: _listing(f.fn('union', i)(o, c)),
+    'o_intersection': lambda f, i, c, o: _listing(
+        f.fn('intersection', i)(c, o)),
+    'o_intersection_r': lambda f, i, c, o: _listing(
+        f.fn('intersection', i)(o, c)),
+    'o_difference': lambda f, i, c, o: _listing(f.fn('difference', i)(c, o)),
+    'o_difference_r': lambda f, i, c, o: _listing(
+        f.fn('difference', i)(o, c)),
+    'o_or': lambda f, i, c, o: _listing(c | o),
+    'o_and': lambda f, i, c, o: _listing(c & o),
+    'o_sub': lambda f, i, c, o: _listing(c - o),
+    'o_multiunion': lambda f, i, c, o: _listing(
+        f.fn('multiunion', i)([o, c, o])),
+    'o_multiunion1': lambda f, i, c, o: _listing(
+        f.fn('multiunion', i)([c])),
+    'o_wunion': lambda f, i, c, o: _listing(
+        f.fn('weightedUnion', i)(c, o, 1, 0)),
+    'o_wunion_r': lambda f, i, c, o: _listing(
+        f.fn('weightedUnion', i)(o, c, 0, 1)),
+    'o_wintersection': lambda f, i, c, o: _listing(
+        f.fn('weightedIntersection', i)(c, o, 1, 0)),
+    'o_update_into': lambda f, i, c, o: (o.update(c), _listing(o))[1],
+    'o_isdisjoint_r': lambda f, i, c, o: o.isdisjoint(c),
+    # (trees have the default persistent repr: address and oid; only the
+    # leaf kinds print their contents)
+    'o_repr': lambda f, i, c, o: (
+        repr(c).replace('Py', ''), None)[
+            0 if type(c).__name__.replace('Py', '').endswith(
+                ('Bucket', 'Set')) and 'TreeSet' not in type(c).__name__
+            else 1],
+    # (weights 1/0 above: the stored values include the integer extremes and
+    # what happens on overflow is not part of any property)
+    'o_byValue': lambda f, i, c, o: list(c.byValue(o)),
+    'o_set_index': lambda f, i, c, o: c[o],
+    'o_pickle': lambda f, i, c, o: __import__('pickle').loads(
+        __import__('pickle').dumps(list(c.keys()))),
+}
+
+
+def operand_call(fam, kind, impl, rng, present, universe, values):
+    """-> (op, spec of the other operand) for an operation that reads the
+    stored container as an operand."""
+    is_mapping = kind in families.MAPPING_KINDS
+    ops = ['o_union', 'o_union_r', 'o_intersection', 'o_intersection_r',
+           'o_difference', 'o_or', 'o_and', 'o_sub', 'o_repr', 'o_pickle']
+    if not is_mapping:
+        ops += ['o_difference_r', 'o_update_into', 'o_isdisjoint_r']
+    if fam.kc in 'IULQ':
+        ops += ['o_multiunion', 'o_multiunion1']
+    if fam.vc in 'IULQF':
+        ops += ['o_wunion', 'o_wunion_r', 'o_wintersection']
+        if is_mapping:
+            ops += ['o_byValue'] * 2
+    if kind == 'Set':
+        ops += ['o_set_index']
+    op = rng.choice(ops)
+    if op == 'o_byValue':
+        vs = [v for v in values if v is not None]
+        return op, ('VALUE', rng.choice(vs) if vs else 0)
+    if op == 'o_set_index':
+        return op, ('VALUE', rng.randint(-len(present) - 1, len(present)))
+    ks = [rng.choice(universe) for _ in range(rng.randint(0, 5))]
+    if present:
+        ks += [rng.choice(present) for _ in range(rng.randint(0, 3))]
+    ks = list(dict.fromkeys(ks))
+    okind = rng.choice(['Set', 'TreeSet'] + (
+        ['Bucket', 'BTree'] if op not in ('o_update_into',
+                                          'o_isdisjoint_r') else []))
+    if op in ('o_difference_r',) and okind in ('Bucket', 'BTree') and \
+            not is_mapping:
+        pass
+    return op, (okind, ks)
+
+
+def build_other(fam, impl, ospec, values, rng):
+    okind, payload = ospec
+    if okind == 'VALUE':
+        return payload
+    o = fam.cls(okind, impl)()
+    if okind in ('Bucket', 'BTree'):
+        vs = [v for v in values if v is not None] or [None]
+        for n, k in enumerate(payload):
+            o[k] = vs[n % len(vs)]
+    else:
+        for k in payload:
+            o.add(k)
+    return o
+
+
 def range_call(rng, w, present, universe, is_mapping, is_tree):
     """A range search whose bounds are taken from the current shape:
     separators, first/last keys of leaves, gaps, None."""
@@ -214,6 +319,12 @@ def _tb(e):
 
 
 def do_call(c, op, args, kw):
+    if op in OPERAND_OPS:
+        fam, impl, other = args
+        try:
+            return ('ok', OPERAND_OPS[op](fam, impl, c, other), None)
+        except Exception as e:
+            return ('exc', type(e).__name__, e)
     if op in EXTRA_OPS:
         try:
             return ('ok', EXTRA_OPS[op](c, *args), None)
@@ -333,15 +444,32 @@ def run_history(fam, kind, impl, mode, rng, rec, h):
                          args=brief(args))
                     return
             continue
-        if rng.random() < 0.15:
+        r_kind = rng.random()
+        if r_kind < 0.15:
             op, args = range_call(rng, w, present, g.universe, is_mapping,
                                   is_tree)
+        elif r_kind < 0.27:
+            op, ospec = operand_call(fam, kind, impl, rng, present,
+                                     g.universe, g.values)
+            args = (ospec,)
         else:
             op, args = g.next_op(w, present)
         log.append((op, args))
         rec.journal(repr((desc, log[-30:])))
-        rargs = tuple(gen.materialize(a, fam, impl, c, False) for a in args)
-        targs = tuple(gen.materialize(a, fam, impl, t, False) for a in args)
+        if op in OPERAND_OPS:
+            # each side gets its own (identical) other operand
+            st_ = rng.getstate()
+            rargs = (fam, impl, build_other(fam, impl, args[0], g.values,
+                                            rng))
+            rng.setstate(st_)
+            targs = (fam, impl, build_other(fam, impl, args[0], g.values,
+                                            rng))
+            rec.ev('operand-op')
+        else:
+            rargs = tuple(gen.materialize(a, fam, impl, c, False)
+                          for a in args)
+            targs = tuple(gen.materialize(a, fam, impl, t, False)
+                          for a in args)
         nghost = 0
         if mode == 'between' and rng.random() < 0.6:
             nghost = sweep(conn, rng)
